@@ -35,7 +35,7 @@ TECH["C20"] = "deterministic simulation: seeded histories interleaving structura
 TECH["C08"] = "deterministic simulation: seeded call histories of a resolver pool sharing the class-wide pattern cache (knob _MAXCACHE randomised, evictions forced), interleaved with tree mutations; every call judged by a stateless regex-free reference glob plus strict/relaxed and glob/get agreement"
 TECH["C19"] = "deterministic simulation: snapshot/restore (pickle protocols 0-5, deepcopy) at arbitrary points of seeded histories incl. never-observed (lazy) states, restore in-process and in a fresh interpreter, then mutation of either side; isomorphism, identity-disjointness, consistency and mutual-independence oracles"
 TECH["C12"] = "deterministic simulation: one stateful exporter object iterated by several interleaved lazy cursors (seeded scheduler picks which cursor steps), in sessions separated by tree mutations; emitted lines judged against the admitted sub-forest, identifier map checked for injectivity and stability across cursors and sessions"
-TECH["C13"] = TECH["C12"] + "; to_file through an in-memory codecs.open"
+TECH["C13"] = TECH["C12"] + "; to_file through a real scratch file"
 TECH["C14"] = "deterministic simulation: pools of query objects re-issued to search and cachedsearch across seeded mutation/attribute-write histories; reference filtered pre-order + count rule; cached == uncached at every point"
 NOTE = {
     "C12": "trusts the harness's admitted-set reference (sim/srch.py ref_preorder) and text prediction; known finding C12-1 is matched by the exact set of extra edges to stopped children",
